@@ -144,7 +144,9 @@ def tlc(spec_dir, module, cfg=None, env=None, workers=4, timeout=900, simulate=N
     spec_dir = Path(spec_dir)
     name = name or module
     meta = workdir("tlc_" + name + "_" + str(os.getpid()) + "_" + str(time.time_ns() % 10**9))
-    jopts = ["-Xss1g", "-Xmx" + heap, "-XX:+UseParallelGC", "-DTLA-Library=" + str(SPEC / "Filters")]
+    # TLC's own temporary directory (java.io.tmpdir) lives in the run's metadir and is removed with it: nothing is left under /tmp
+    (meta / "tmp").mkdir(parents=True, exist_ok=True)
+    jopts = ["-Xss1g", "-Xmx" + heap, "-XX:+UseParallelGC", "-DTLA-Library=" + str(SPEC / "Filters"), "-Djava.io.tmpdir=" + str(meta / "tmp")]
     if dfs:
         jopts.append("-Dtlc2.tool.queue.IStateQueue=StateDeque")
     cmd = ["timeout", str(int(timeout)), "java", *jopts, "-cp", TLA_JAR, "tlc2.TLC",
